@@ -33,6 +33,20 @@ type vfEvent struct {
 	failed bool
 	authed bool
 	unblk  bool
+	snap   map[string]interface{} // JSON form of val at the time of the call
+}
+
+// vfSnap serialises a value when the call is made (later mutations of the same
+// object - e.g. stripping bto/bcc before delivery - must not change the log).
+func vfSnap(t vocab.Type) map[string]interface{} {
+	if t == nil {
+		return nil
+	}
+	m, err := streams.Serialize(t)
+	if err != nil {
+		return nil
+	}
+	return m
 }
 
 type vfStored struct {
@@ -73,6 +87,7 @@ type vfWorld struct {
 	newIDs      []*url.URL
 	idKind      int
 	missingReq  bool
+	distinctPool []string
 	likesKind   int
 	likesPre    int
 	storedFollowN       int
@@ -323,7 +338,7 @@ func (d *vfDB) Get(c context.Context, id *url.URL) (vocab.Type, error) {
 func (d *vfDB) Create(c context.Context, asType vocab.Type) error {
 	w := d.w
 	w.dbCall("db.Create", "")
-	w.ev(vfEvent{kind: "db.Create", val: asType, id: vfIdOf(asType)})
+	w.ev(vfEvent{kind: "db.Create", val: asType, id: vfIdOf(asType), snap: vfSnap(asType)})
 	if w.fault("db.Create") {
 		w.log[len(w.log)-1].failed = true
 		return vfErrFault
@@ -334,7 +349,7 @@ func (d *vfDB) Create(c context.Context, asType vocab.Type) error {
 func (d *vfDB) Update(c context.Context, asType vocab.Type) error {
 	w := d.w
 	w.dbCall("db.Update", "")
-	w.ev(vfEvent{kind: "db.Update", val: asType, id: vfIdOf(asType)})
+	w.ev(vfEvent{kind: "db.Update", val: asType, id: vfIdOf(asType), snap: vfSnap(asType)})
 	if w.fault("db.Update") {
 		w.log[len(w.log)-1].failed = true
 		return vfErrFault
@@ -381,13 +396,14 @@ func (d *vfDB) NewID(c context.Context, t vocab.Type) (*url.URL, error) {
 		return nil, vfErrFault
 	}
 	id := vfURL("newid")
-	// contract: fresh, pairwise distinct ids
-	for _, o := range w.newIDs {
-		vfAssume(id.String() != o.String(), "NewID returns pairwise distinct ids")
+	// contract: fresh ids - pairwise distinct and different from every id of the request
+	if w.distinctPool == nil {
+		w.distinctPool = []string{w.actorIRI.String(), w.inboxIRI.String(), w.outboxIRI.String(),
+			"https://www.w3.org/ns/activitystreams#Public", "as:Public", "Public"}
+		vfDistinct(w.distinctPool)
 	}
-	vfAssume(id.String() != w.actorIRI.String(), "NewID is fresh (actor)")
-	vfAssume(id.String() != w.inboxIRI.String(), "NewID is fresh (inbox)")
-	vfAssume(id.String() != w.outboxIRI.String(), "NewID is fresh (outbox)")
+	w.distinctPool = append(w.distinctPool, id.String())
+	vfDistinct(w.distinctPool)
 	w.newIDs = append(w.newIDs, id)
 	return id, nil
 }
